@@ -504,10 +504,16 @@ def parse_stats_groups(fmt, text, by):
 # ------------------------------------------------------------------ model protocol
 
 def w_results(rows):
-    """rows: list of (status_name, path, (t,c,m,b)) -> wire"""
+    """rows: list of (status_name, path, (t,c,m,b)[, is_structure_result]) -> wire"""
     if not rows:
         return "-"
-    return ";".join("%d|%s|%d|%d|%d|%d" % (STATUS.index(st), enc(p), s[0], s[1], s[2], s[3]) for st, p, s in rows)
+    return ";".join("%d|%s|%d|%d|%d|%d%s" % (STATUS.index(r[0]), enc(r[1]), r[2][0], r[2][1], r[2][2], r[2][3], "|1" if len(r) > 3 and r[3] else "")
+                    for r in rows)
+
+
+def is_structure_row(r):
+    """a row of check --format json that stands for a directory / naming rule, not for a counted file"""
+    return (r.get("violation_category") or {}).get("category") == "structure"
 
 
 def w_files(files):
